@@ -610,6 +610,26 @@ func judge(c engine.Case) engine.Outcome {
 		}); p {
 			return engine.Fail(class("panic", panicClass(d, fn, st)), "hcldec.%s panics: %s\n%s\n%s", fn, msg, trimStack(st), desc())
 		}
+		// decoding the same body with the same spec objects again must give the same outcome
+		// (no state kept in specs or bodies between calls)
+		{
+			var val2 cty.Value
+			var diags2 hcl.Diagnostics
+			if p, msg, st := guard(func() {
+				if partial {
+					val2, _, diags2 = hcldec.PartialDecode(f.Body, spec, ctx)
+				} else {
+					val2, diags2 = hcldec.Decode(f.Body, spec, ctx)
+				}
+			}); p {
+				return engine.Fail("c08.second-decode.panic", "the second hcldec.%s of the same body and spec panics: %s\n%s\n%s", fn, msg, trimStack(st), desc())
+			}
+			if val2 == cty.NilVal || val == cty.NilVal || diags2.HasErrors() != diags.HasErrors() || !val2.RawEquals(val) {
+				if val != cty.NilVal && val2 != cty.NilVal {
+					return engine.Fail("c08.second-decode.differs", "hcldec.%s of the same body and spec gives %s (errors=%v) the first time and %s (errors=%v) the second time\n%s", fn, vfmt.V(val), diags.HasErrors(), vfmt.V(val2), diags2.HasErrors(), desc())
+				}
+			}
+		}
 		hasErr := diags.HasErrors()
 		if val == cty.NilVal {
 			return engine.Fail("c08.nil-value."+nodeName(d.Spec), "hcldec.%s returned cty.NilVal\n%s", fn, desc())
